@@ -1,0 +1,8 @@
+//go:build !verif
+// +build !verif
+
+package service
+
+// verifYield marks a shared-memory step of the ring buffer for the
+// verification harness (build tag verif). Without the tag it does nothing.
+func verifYield(int) {}
